@@ -33,7 +33,7 @@ HTML_ASCII_CASE_INSENSITIVE_COLLATION = \
 XQUERY_TEST_SUITE_CASEBLIND_COLLATION = \
     "http://www.w3.org/2010/09/qt-fots-catalog/collation/caseblind"
 
-_locale_collate_lock = threading.Lock()
+_locale_collate_lock = threading.RLock()
 
 
 def get_locale_category(category: int) -> str:
@@ -78,7 +78,7 @@ class CollationManager(context_class_base):
     """
     lc_collate: Union[None, str, tuple[Optional[str], Optional[str]]]
     fallback: bool = False
-    _current_lc_collate: Optional[tuple[Optional[str], Optional[str]]] = None
+    _current_lc_collate: Optional[str] = None
 
     def __init__(self,
                  collation: Optional[str],
@@ -133,19 +133,23 @@ class CollationManager(context_class_base):
         if self.lc_collate is not None:
             # Only one locale set can be used at a time
             _locale_collate_lock.acquire()
-            self._current_lc_collate = locale.getlocale(locale.LC_COLLATE)
-
             try:
-                locale.setlocale(locale.LC_COLLATE, self.lc_collate)
-            except locale.Error:
-                if not self.fallback:
-                    self._current_lc_collate = None
-                    _locale_collate_lock.release()
+                # Save the raw setting, that preserves also locale modifiers
+                self._current_lc_collate = locale.setlocale(locale.LC_COLLATE)
+                try:
+                    locale.setlocale(locale.LC_COLLATE, self.lc_collate)
+                except locale.Error:
+                    if not self.fallback:
+                        raise
+                    locale.setlocale(locale.LC_COLLATE, 'en_US.UTF-8')
+            except BaseException as err:
+                self._current_lc_collate = None
+                _locale_collate_lock.release()
+                if not isinstance(err, locale.Error):
+                    raise
 
-                    msg = f"Unsupported collation {self.collation!r}"
-                    raise xpath_error('FOCH0002', msg, self.token) from None
-
-                locale.setlocale(locale.LC_COLLATE, 'en_US.UTF-8')
+                msg = f"Unsupported collation {self.collation!r}"
+                raise xpath_error('FOCH0002', msg, self.token) from None
 
         return self
 
@@ -153,9 +157,11 @@ class CollationManager(context_class_base):
                  exc_val: Optional[BaseException],
                  exc_tb: Optional[TracebackType]) -> None:
         if self._current_lc_collate is not None:
-            locale.setlocale(locale.LC_COLLATE, self._current_lc_collate)
-            self._current_lc_collate = None
-            _locale_collate_lock.release()
+            try:
+                locale.setlocale(locale.LC_COLLATE, self._current_lc_collate)
+            finally:
+                self._current_lc_collate = None
+                _locale_collate_lock.release()
 
     def eq(self, a: Any, b: Any) -> bool:
         if not isinstance(a, str) or not isinstance(b, str):
